@@ -340,6 +340,9 @@ def openPackageResource(package, path):
 
 def _url_from_file(file_or_path):
     name = getattr(file_or_path, "name", None)
+    if not isinstance(name, str):
+        # e.g. the integer descriptor of a file made with os.fdopen()
+        return None
     if name and name[0] != "<" and name[-1] != ">":
         return "file://" + pathname2url(os.path.abspath(name))
 
